@@ -130,27 +130,43 @@ class SymFS:
         node.ctime = self.clock
 
     def _resolve(self, p, follow=True, depth=0):
-        """follow symlinks in the final component (and simple intermediate ones)"""
-        p = self.norm(p)
-        if depth > 8:
+        """component-wise path resolution as the kernel does it: symbolic links are followed
+        before a following '..' is applied; `follow` only concerns the final component"""
+        if isinstance(p, bytes):
+            p = p.decode()
+        if hasattr(p, '__fspath__'):
+            p = p.__fspath__()
+        if depth > 12:
             raise _err(_errno.ELOOP, p)
-        # intermediate symlinked directories
-        parts = p.split('/')
-        for i in range(1, len(parts)):
-            pre = '/'.join(parts[:i])
-            n = self.names.get(pre)
-            if n is not None and n.kind == 'l':
+        absolute = p.startswith('/')
+        parts = [c for c in p.split('/') if c not in ('', '.')]
+        cur = []
+
+        def key(lst):
+            if absolute:
+                return '/' + '/'.join(lst)
+            return '/'.join(lst) if lst else '.'
+        for idx, c in enumerate(parts):
+            last = idx == len(parts) - 1
+            if c == '..':
+                if cur:
+                    cur.pop()
+                continue
+            cand = key(cur + [c])
+            n = self.names.get(cand)
+            if n is not None and n.kind == 'l' and (follow or not last):
                 tgt = n.target
-                if not tgt.startswith('/'):
-                    tgt = posixpath.join(posixpath.dirname(pre), tgt)
-                return self._resolve(posixpath.join(tgt, '/'.join(parts[i:])), follow, depth + 1)
-        n = self.names.get(p)
-        if follow and n is not None and n.kind == 'l':
-            tgt = n.target
-            if not tgt.startswith('/'):
-                tgt = posixpath.join(posixpath.dirname(p), tgt)
-            return self._resolve(tgt, True, depth + 1)
-        return p
+                rest = parts[idx + 1:]
+                if tgt.startswith('/'):
+                    newp = '/'.join([tgt] + rest)
+                else:
+                    base = key(cur)
+                    newp = '/'.join([base if base != '.' else '', tgt] + rest) if base != '.' else '/'.join([tgt] + rest)
+                    if absolute and not newp.startswith('/'):
+                        newp = '/' + newp
+                return self._resolve(newp, follow, depth + 1)
+            cur.append(c)
+        return key(cur)
 
     # ----------------------------------------------------- file creation ----
     def _new(self, kind, mode):
@@ -644,8 +660,11 @@ class FakePath:
         return posixpath.normpath(posixpath.join('/cwd', p))
 
     def realpath(self, p, **kw):
-        q = self.fs._resolve(posixpath.normpath(posixpath.join('/cwd', p)))
-        return q
+        # like the real function: symbolic links are resolved component by component, '..' applies
+        # to the resolved prefix; dangling components are kept lexically
+        if isinstance(p, bytes):
+            p = p.decode()
+        return self.fs._resolve(p if p.startswith('/') else '/cwd/' + p)
 
     def getsize(self, p):
         return self.fs.stat(p).st_size
